@@ -5,7 +5,7 @@ import json
 import os
 import subprocess
 
-from vlib import MachineryError, log
+from vlib import MachineryError, log, REPO
 
 
 def replay(ctx, path):
@@ -27,8 +27,8 @@ def validate_trace(ctx, module, trace_name, trace_path, expect_reject=False, wor
         import shutil
         shutil.copy(trace_path, dst)
     r = ctx.tlc(module, workers=workers, timeout=timeout, extra_files=[dst],
-                label=module + ("(corrupted)" if expect_reject else ""))
-    accepted = not r.postcondition_false
+                label=module + ("(corrupted)" if expect_reject else ""), allow_violation=True)
+    accepted = not r.postcondition_false and not r.violated
     return accepted, r
 
 
@@ -164,3 +164,72 @@ def run_C14(ctx):
     res2 = dict(res2, mismatches=keep, n_mismatch=len(keep))
     ctx.absorb(res2, "G:c07-replay(graphs)")
     ctx.cov["exhaustive"] = True
+
+
+def run_C09(ctx):
+    ctx.cov["rule"] = ("G: every project obtained from 5 base documents (explicit URL context, Path + request/response bodies, a rule-rejected document with a duplicate TYPE, "
+                       "a document with identical runs) by up to 2 (quick) / 3 (thorough) nested cuts of balanced token runs into new files and by re-use of an existing file for an identical run; "
+                       "the real build of the split project is compared with the real build of the unsplit document (catalog bytes; message, file and line of rule errors). "
+                       "Non-trivial = distinct file contents (token kinds).")
+    ctx.assumptions += ["cuts are balanced with respect to explicit '( )' contexts: an included file may not close or leave open a context of its includer (fix b250f73)",
+                        "JSIGHT may not be moved into an included file (language rule): such cuts must be rejected with that error"]
+    cfg = "MC_C09_quick.cfg" if ctx.quick else "MC_C09_thorough.cfg"
+    r = ctx.tlc("MC_C09", cfg=cfg, timeout=3000)
+    res = ctx.vh("c09-replay", r.out)
+    ctx.absorb(res, "G:c09-replay")
+    ctx.cov["exhaustive"] = True
+    st = ctx.vh("c09-replay", r.out, "selftest")
+    ctx.selftest(st["n_mismatch"] >= st["cases"] * 0.6, "C09 G: a corrupted unsplit document is noticed")
+
+
+# ------------------------------------------------------------------ C02 / C05 / C08
+def _docs(ctx, layouts):
+    cfg = "MC_C02_quick.cfg" if ctx.quick else "MC_C02_thorough.cfg"
+    r = ctx.tlc("MC_C02", cfg=cfg, timeout=3300)
+    res = ctx.vh("doc-replay", r.out, env={"VH_LAYOUTS": str(layouts), "VERIF_SEED": str(ctx.seed)}, timeout=3300)
+    return r, res
+
+
+def _only(res, prefixes, invert=False):
+    keep = [m for m in (res.get("mismatches") or []) if m["sig"].startswith(tuple(prefixes)) != invert]
+    return dict(res, mismatches=keep, n_mismatch=len(keep))
+
+
+DOC_RULE = ("documents = JSIGHT + every sequence of up to 3 (quick) / 4 (thorough) distinct blocks out of 17 block templates (INFO, SERVER, 2 TAGs, 3 TYPEs incl. a reference and a regex, ENUM, "
+            "URL groups with methods / query / request / responses / headers / path variables, explicit and implicit contexts, stand-alone methods, JSON-RPC URL, Tags at URL and method level, "
+            "MACRO + PASTE, a similar-path block); the specification predicts accept + catalog skeleton, or error class + line. ")
+
+
+def run_C02(ctx):
+    ctx.cov["rule"] = ("G: " + DOC_RULE + "Each document is built by the real code in the canonical layout and in seeded random layouts (line ending LF/CRLF/CR, uniform indentation, "
+                       "blank lines, '#' and '###' comments, trailing blanks/comments, quoted parameters, // vs /* */ annotations); the projected catalog JSON must equal the skeleton: "
+                       "sections in document order, names, ids, annotations, descriptions, parameters, per-schema notation / root type / used types / used enums, path variables. "
+                       "Non-trivial = distinct block sequences.")
+    ctx.assumptions += ["inside schema bodies only the root node type and the used-type/enum sets are predicted (deep content is owned by jsight-schema-core)"]
+    r, res = _docs(ctx, 2 if ctx.quick else 3)
+    ctx.absorb(res, "G:doc-replay")
+    ctx.cov["exhaustive"] = True
+    st = ctx.vh("doc-replay", r.out, "selftest")
+    ctx.selftest(st["n_mismatch"] == st["cases"], "C02 G: corrupted skeletons / verdicts are reported")
+
+
+def run_C05(ctx):
+    ctx.cov["rule"] = ("M: CrossRefsClosed on every accepted catalog of the document model. G: " + DOC_RULE + "The cross-reference invariants are evaluated directly on the real JSON of every accepted document. "
+                       "V: every accepted file of the repository's corpus (714 of 1108) is built, its catalog logged in skeleton form and judged by Trace_C05.tla (SkelOK). "
+                       "Non-trivial = distinct block sequences / accepted corpus files.")
+    r, res = _docs(ctx, 1)
+    ctx.absorb(_only(res, ["c05:", "doc:panic", "doc:tojson", "doc:catalog-shape"]), "G:doc-replay(c05)")
+    tp = os.path.join(ctx.scratch, "trace_c05.ndjson")
+    rec = ctx.vh("corpus-skeletons", REPO, tp)
+    ctx.absorb(rec, "V:corpus-skeletons")
+    ok, tr = validate_trace(ctx, "Trace_C05", "trace_c05.ndjson", tp)
+    if not ok:
+        ctx.violation("c05:trace-rejected", "a catalog produced by the real code violates SkelOK of Trace_C05.tla (record %d of %d)" % (tr.depth, rec["extra"]["logged"]),
+                      {"kind": "c05-trace", "record": tr.depth})
+    else:
+        ctx.cov["traces_validated_against_impl"] += rec["extra"]["logged"]
+    tp2 = os.path.join(ctx.scratch, "c5", "trace_c05.ndjson")
+    os.makedirs(os.path.dirname(tp2))
+    ctx.vh("corpus-skeletons", REPO, tp2, "corrupt")
+    ok2, _ = validate_trace(ctx, "Trace_C05", "trace_c05.ndjson", tp2, expect_reject=True)
+    ctx.selftest(not ok2, "C05 V: a corrupted catalog record is rejected")
